@@ -62,6 +62,47 @@ class Ctx:
         self.disagreements.append((stream, case, impl, model))
 
 
+def anchored_files(pid):
+    """source files the property is anchored in (properties.jsonl), below the repository under verification"""
+    repo = os.environ.get("VERIF_REPO", "/repo")
+    for l in open(os.path.join(ROOT, "properties.jsonl")):
+        p = json.loads(l)
+        if p["id"] == pid:
+            return [os.path.join(repo, f) for f in p["anchors"]["files"]]
+    return []
+
+
+def start_coverage(pid):
+    """line + branch coverage of the anchored files while the in-process correspondence runs (how much of the
+    code the generated cases reach; child processes - runtime workers, daemons - are not measured)"""
+    try:
+        import coverage
+        files = [f for f in anchored_files(pid) if os.path.exists(f)]
+        if not files:
+            return None
+        c = coverage.Coverage(branch=True, include=files, data_file=None, config_file=False)
+        c.start()
+        return c
+    except Exception:
+        return None
+
+
+def stop_coverage(cov, ctx):
+    if cov is None:
+        return
+    try:
+        cov.stop()
+        out = {}
+        for f in sorted(cov.get_data().measured_files()):
+            _, stmts, _, missing, _ = cov.analysis2(f)
+            if stmts:
+                out[os.path.relpath(f, os.environ.get("VERIF_REPO", "/repo"))] = {
+                    "statements": len(stmts), "executed": len(stmts) - len(missing), "missing_lines": missing[:40]}
+        ctx.notes["coverage_of_anchored_files_in_process"] = out or "nothing measured in this process (the implementation runs in child processes)"
+    except Exception as e:
+        ctx.notes["coverage_of_anchored_files_in_process"] = "unavailable: %s" % e
+
+
 def write_replay(pid, seed, name, payload):
     d = os.path.join(ROOT, "replays")
     os.makedirs(d, exist_ok=True)
@@ -150,6 +191,7 @@ def main(argv=None):
         return mod.replay(payload)
     ctx = Ctx(pid, args.tier, seed)
     known = load_known()
+    cov = start_coverage(pid)
     try:
         ctx.lean_status = lean.prepare(pid, thorough=args.tier == "thorough")
         if not ctx.lean_status["driver_ok"]:
@@ -166,6 +208,8 @@ def main(argv=None):
         traceback.print_exc()
         print("INTERNAL: check crashed")
         return 2
+    finally:
+        stop_coverage(cov, ctx)
     # verdict
     rc = 0
     seen = set()
